@@ -18,7 +18,7 @@ import ssl
 from kit.h import P, run, mark, known, pin_index, decode_point
 from urllib3 import ProxyManager
 import urllib3
-from urllib3 import PoolManager, Retry, Timeout
+from urllib3 import PoolManager, Retry, Timeout, HTTPHeaderDict
 from urllib3.poolmanager import PoolKey, SSL_KEYWORDS
 from urllib3.connectionpool import HTTPConnectionPool, HTTPSConnectionPool
 from urllib3.connection import HTTPConnection, HTTPSConnection
@@ -47,7 +47,10 @@ STR_KW = ["key_file", "key_password", "cert_file", "cert_reqs", "ca_certs", "ca_
 INT_KW = ["timeout", "retries", "maxsize", "blocksize", "ssl_minimum_version", "ssl_maximum_version"]
 BOOL_KW = ["block"]
 OBJ_KW = ["ssl_context", "headers", "_proxy", "_proxy_headers", "_proxy_config", "socket_options", "source_address",
-          "_socks_options", "timeout_obj", "retries_obj", "assert_hostname_false", "retries_false"]
+          "_socks_options", "timeout_obj", "retries_obj", "assert_hostname_false", "retries_false", "headers_hd", "_proxy_headers_hd"]
+
+REAL_KW = {"timeout_obj": "timeout", "retries_obj": "retries", "assert_hostname_false": "assert_hostname",
+           "retries_false": "retries", "headers_hd": "headers", "_proxy_headers_hd": "_proxy_headers"}
 
 HOSTS = ["h.example", "H.EXAMPLE", "h.Example"]
 
@@ -71,8 +74,7 @@ class KeySpy(PoolManager):
 
 
 def _key_for(kw_name, value, placement, host_i, explicit_port, scheme):
-    real_kw = {"timeout_obj": "timeout", "retries_obj": "retries", "assert_hostname_false": "assert_hostname",
-               "retries_false": "retries"}.get(kw_name, kw_name)
+    real_kw = REAL_KW.get(kw_name, kw_name)
     if placement == 0:
         pm = KeySpy(**{real_kw: value})
         pk = None
@@ -107,6 +109,10 @@ def OBJ_VALUES(name, sv="x", si=1):
     return {
         "ssl_context": [c[0], c[1], None],
         "headers": [{"A": sv}, {"A": sv + "y"}, {"B": "1"}],
+        # the same settings given as urllib3's own header container (what response.headers / HTTPHeaderDict users pass on)
+        "headers_hd": [HTTPHeaderDict({"A": sv}), HTTPHeaderDict({"A": sv + "y"}), HTTPHeaderDict({"B": "1"})],
+        "_proxy_headers_hd": [HTTPHeaderDict({"Proxy-Authorization": sv}), HTTPHeaderDict({"Proxy-Authorization": sv + "2"}),
+                              HTTPHeaderDict({"X": "1"})],
         "_proxy": [parse_url("http://p1:3128"), parse_url("http://p2:3128"), parse_url("http://p3")],
         "_proxy_headers": [{"Proxy-Authorization": sv}, {"Proxy-Authorization": sv + "2"}, {"X": "1"}],
         "_proxy_config": [ProxyConfig(None, False, None, None), ProxyConfig(None, True, None, None),
@@ -124,7 +130,7 @@ def OBJ_VALUES(name, sv="x", si=1):
 def _key_body(s1, s2, i1, i2, b1, b2, placement1, placement2, h1, h2, p1, p2, https):
     kw_name = P.kw
     scheme = "https" if https else "http"
-    if kw_name == "headers":
+    if kw_name in ("headers", "headers_hd"):
         # PoolManager(headers=...) are the manager's per-request defaults, not a pool setting: pool_kwargs only
         placement1 = placement2 = 1
     if kw_name in SSL_KEYWORDS and not https:
@@ -240,8 +246,7 @@ def c18_falsy(idx: int) -> bool:
 def _map_body(kwi, differ, front, h2, p2, https):
     names = STR_KW + INT_KW + BOOL_KW + OBJ_KW
     kw_name = names[kwi]
-    real_kw = {"timeout_obj": "timeout", "retries_obj": "retries", "assert_hostname_false": "assert_hostname",
-               "retries_false": "retries"}.get(kw_name, kw_name)
+    real_kw = REAL_KW.get(kw_name, kw_name)
     scheme = "https" if https else "http"
     if kw_name in STR_KW:
         v1, v2 = "v1", "v2"
@@ -253,7 +258,7 @@ def _map_body(kwi, differ, front, h2, p2, https):
         v1, v2 = OBJ_VALUES(kw_name)[:2]
     if not differ:
         v2 = v1
-    if front and kw_name in ("_proxy", "_proxy_headers", "_proxy_config", "_socks_options"):
+    if front and kw_name in ("_proxy", "_proxy_headers", "_proxy_headers_hd", "_proxy_config", "_socks_options"):
         return True           # the proxy manager sets these itself
     pm = PoolManager() if front == 0 else ProxyManager("http://proxy.example:3128")
     defaults_before = dict(pm.connection_pool_kw)
